@@ -307,6 +307,15 @@ def base_programs():
     add("log-put", ("seq", ("op", "log", (), "n", (B(b"hello"),)), ("op", "app_global_put", (), "n", (B(b"k1"), FEE)), APPROVE))
     add("bare-int", I(1))
     add("tail-return-in-if", ("seq", POP1, ("if", C1, ("return", I(1)), ("return", I(0)))))
+    # exit statements inside arms / loop bodies with MORE code after the enclosing construct (a Comment right after the exit
+    # must not keep the arm's block alive): 3 arms, a variable stored on the last arm only and loaded after the join
+    C3 = ("op", "==", (), "u", (("op", "txn", ("TypeEnum",), "u", ()), I(6)))
+    add("exit-in-arms-var", ("seq", ("if", C1, ("seq", APPROVE), ("if", C2, ("seq", POP1, APPROVE), st("k", I(7)))), ("return", ld("k"))))
+    add("exit-in-arms", ("seq", ("if", C1, ("seq", POP1, APPROVE), ("if", C2, ("seq", REJECT), ("if", C3, ("seq", ("return", I(1))), POP2))), POP1, ("return", I(1))))
+    add("exit-in-cond", ("seq", ("cond", (C1, ("seq", APPROVE)), (C2, ("seq", POP1, REJECT)), (C3, ("seq", ("op", "err", (), "n", ()))), (I(1), POP2)), st("k", FEE), ("return", ld("k"))))
+    add("exit-in-loop", ("seq", st("i", I(0)), ("while", ("op", "<", (), "u", (ld("i"), I(3))),
+                                 ("seq", st("i", ("nary", "+", "u", (ld("i"), I(1)))), ("if", C1, ("seq", APPROVE)), ("if", C2, ("seq", POP1, ("return", I(0)))))), POP2, APPROVE))
+    add("exit-then-dead-assert", ("seq", ("if", C1, ("seq", REJECT, ("assert", (C2,)))), ("if", C2, ("seq", APPROVE, POP1), POP2), POP1, APPROVE))
     # subroutines
     add("sub-none", ("seq", ("call", "f", ()), APPROVE), [("f", None, "n", 0, ("seq", POP1))])
     add("sub-ret", ("seq", ("call", "f", ()), APPROVE), [("f", None, "n", 0, ("seq", POP1, ("return",)))])
@@ -315,6 +324,10 @@ def base_programs():
         [("f", None, "n", 0, ("if", C1, POP1, POP2)), ("g", None, "u", 0, ("if", C1, I(1), I(2)))])
     add("sub-arg", ("return", ("call", "f", (FEE,))), [("f", None, "u", 1, ("nary", "+", "u", (("param", 0), I(1))))])
     add("sub-args2", ("return", ("call", "f", (FEE, I(2)))), [("f", None, "u", 2, ("seq", POP1, ("op", "-", (), "u", (("param", 0), ("param", 1)))))])
+    add("sub-exit-in-arm", ("return", ("call", "f", ())),
+        [("f", None, "u", 0, ("seq", ("if", C1, ("seq", ("return", I(1))), ("if", C2, ("seq", POP1, ("return", I(2))), st("k", I(7)))), ("return", ld("k"))))])
+    add("sub-none-exit-in-arm", ("seq", ("call", "f", ()), APPROVE),
+        [("f", None, "n", 0, ("seq", ("if", C1, ("seq", ("return",)), ("if", C2, ("seq", POP1, ("return",)), POP2)), POP1))])
     add("sub-rec", ("return", ("call", "f", (I(3),))),
         [("f", None, "u", 1, ("if", ("op", "==", (), "u", (("param", 0), I(0))), I(1), ("nary", "*", "u", (("param", 0), ("call", "f", (("op", "-", (), "u", (("param", 0), I(1))),))))))])
     return out
